@@ -29,12 +29,14 @@ type Mutant struct {
 
 var Mutants = map[string][]Mutant{
 	"C01": {
+		{"merged segment keeps its link to an absorbed segment", "path_intersection.go", `\ts\.other\.inResult = s\.inResult\n\ts\.prev = prev\n`, "\ts.other.inResult = s.inResult\n", "E9.absorbed-link"},
 		{"disjoint-P shortcut forgets NOT", "path_intersection.go", `op == opOR \|\| op == opXOR \|\| op == opNOT \|\| op == opDIV`, `op == opOR || op == opXOR || op == opDIV`, "E9.shortcut"},
 		{"And membership uses ||", "path_intersection.go", `belowFills = fillRule\.Fills\(lowerWindings\) && fillRule\.Fills\(lowerOtherWindings\)`, `belowFills = fillRule.Fills(lowerWindings) || fillRule.Fills(lowerOtherWindings)`, "E9.membership"},
 		{"Path.Xor passes opOR", "path_intersection.go", `return bentleyOttmann\(p\.Split\(\), q\.Split\(\), opXOR, NonZero\)`, `return bentleyOttmann(p.Split(), q.Split(), opOR, NonZero)`, "E9.wrapper"},
 		{"empty Q returns P for And", "path_intersection.go", `if op == opAND \{\n\t\t\treturn &Path\{\}\n\t\t\}\n\t\treturn ps\.Settle\(fillRule\)`, `return ps.Settle(fillRule)`, "E9.shortcut"},
 	},
 	"C02": {
+		{"merged segment keeps its link to an absorbed segment", "path_intersection.go", `\ts\.other\.inResult = s\.inResult\n\ts\.prev = prev\n`, "\ts.other.inResult = s.inResult\n", "E9.absorbed-link"},
 		{"Negative rule includes zero", "path.go", `return windings < 0`, `return windings <= 0`, "E9.fills"},
 		{"EvenOdd tests == 1", "path.go", `return windings%2 != 0`, `return windings%2 == 1`, "E9.fills"},
 		{"Paths.Settle ignores its rule", "path_intersection.go", `return bentleyOttmann\(ps, nil, opSettle, fillRule\)`, `return bentleyOttmann(ps, nil, opSettle, NonZero)`, "E9.wrapper"},
@@ -81,6 +83,8 @@ var Mutants = map[string][]Mutant{
 		{"quad case reads offset 5", "path.go", `\t\tcase QuadToCmd:\n\t\t\tcp := Point\{p\.d\[i\+1\], p\.d\[i\+2\]\}\n\t\t\tend = Point\{p\.d\[i\+3\], p\.d\[i\+4\]\}\n\t\t\txmin = math\.Min\(xmin, math\.Min\(cp\.X, end\.X\)\)`, "\t\tcase QuadToCmd:\n\t\t\tcp := Point{p.d[i+1], p.d[i+2]}\n\t\t\tend = Point{p.d[i+5], p.d[i+6]}\n\t\t\txmin = math.Min(xmin, math.Min(cp.X, end.X))", "E2.layout"},
 	},
 	"C10": {
+		{"LineTo picks the axis on signed components", "path.go", `if math\.Abs\(da\.Y\) < math\.Abs\(da\.X\) \{`, "if da.Y < da.X {", "E3.dominant-axis"},
+		{"Join's close repair runs past the sub-path", "path.go", `\t\tif cmd == MoveToCmd \{\n\t\t\tbreak\n\t\t\} else if cmd == CloseCmd \{\n\t\t\tp\.d\[i\+1\] = end\.X`, "\t\tif cmd == CloseCmd {\n\t\t\tp.d[i+1] = end.X", "E2.close-rewrite"},
 		{"replace loses its copy-on-write", "path.go", `\t\t\t\tp = p\.Copy\(\)\n\t\t\t\tcopied = true`, "\t\t\t\tcopied = true", "E1.no-mutation"},
 		{"dashCanonical edits the caller's array", "path.go", `\td = append\(\[\]float64\{\}, d\.\.\.\) // d is modified below[^\n]*\n`, ``, "E1.no-mutation"},
 		{"Split hands out growable sub-slices", "path.go", `ps = append\(ps, &Path\{p\.d\[i:j:j\]\}\)\n\t\t\ti = j`, "ps = append(ps, &Path{p.d[i:j]})\n\t\t\ti = j", "E11.split-cap"},
@@ -106,6 +110,10 @@ var Mutants = map[string][]Mutant{
 		{"PS eofill outside its guard", "renderers/ps/ps.go", `r\.w\.Write\(\[\]byte\(" fill"\)\)\n\t\t\}\n\t\tif style\.HasStroke\(\) && !strokeUnsupported \{\n\t\t\tr\.w\.Write\(\[\]byte\(" grestore"\)\)`, "r.w.Write([]byte(\" eofill\"))\n\t\t}\n\t\tif style.HasStroke() && !strokeUnsupported {\n\t\t\tr.w.Write([]byte(\" grestore\"))", "E6.enum"},
 	},
 	"C13": {
+		{"literal strings no longer escape CR", "renderers/pdf/writer.go", `\t\tv = strings\.Replace\(v, "\\r", .*\n`, "", "E5.string-escape"},
+		{"parentheses escaped before the backslash", "renderers/pdf/writer.go", "\\t\\tv = strings\\.Replace\\(v, `\\\\`, `\\\\\\\\`, -1\\)\\n(\\t\\tv = strings\\.Replace\\(v, `\\(`, .*\\n)", "$1\t\tv = strings.Replace(v, `\\`, `\\\\`, -1)\n", "E5.string-escape"},
+		{"soft mask declares the image's filter", "renderers/pdf/writer.go", `"Interpolate":      true,\n\t\t\t\t"Filter":           pdfFilterFlate,`, "\"Interpolate\":      true,\n\t\t\t\t\"Filter\":           filter,", "E5.stream-filter"},
+		{"lossy image bytes not encoded", "renderers/pdf/writer.go", `\t\tstream = buf\.Bytes\(\)\n\t\} else \{\n\t\tfilter = pdfFilterFlate`, "\t\tstream = make([]byte, buf.Len())\n\t} else {\n\t\tfilter = pdfFilterFlate", "E5.stream-filter"},
 		{"stitching functions collected in a []pdfDict", "renderers/pdf/writer.go", `\tfs := pdfArray\{\}\n`, "\tfs := []interface{}{}\n\tvar _ = []pdfDict{}\n", "E5.value-types"},
 		{"font object slot reserved only for a new subsetter", "renderers/pdf/writer.go", `\tw\.objOffsets = append\(w\.objOffsets, 0\)\n\tref := pdfRef\(len\(w\.objOffsets\)\)\n\tfonts\[font\] = ref\n\tif _, ok := w\.fontSubset\[font\]; !ok \{\n`, "\tif _, ok := w.fontSubset[font]; !ok {\n\t\tw.objOffsets = append(w.objOffsets, 0)\n\t}\n\tref := pdfRef(len(w.objOffsets))\n\tfonts[font] = ref\n\tif _, ok := w.fontSubset[font]; !ok {\n", "E5.fresh-ref"},
 		{"Subject filled from title", "renderers/pdf/writer.go", `info\["Subject"\] = encode\(w\.subject\)`, `info["Subject"] = encode(w.title)`, "E5.metadata"},
@@ -142,6 +150,7 @@ var Mutants = map[string][]Mutant{
 		{"setter writes the stack", "canvas.go", `func \(c \*Context\) SetStrokeWidth\(width float64\) \{\n`, "func (c *Context) SetStrokeWidth(width float64) {\n\tc.stack = nil\n", "E11.ctx-setter"},
 	},
 	"C16": {
+		{"glyph offset not advanced for penalties", "text.go", `\t\t\t\t\tshrink \+= items\[i\]\.Shrink\n\t\t\t\t\}\n\t\t\t\tbg2 \+= items\[i\]\.Size\n`, "\t\t\t\t\tshrink += items[i].Shrink\n\t\t\t\t\tbg2 += items[i].Size\n\t\t\t\t}\n", "E11.glyph-cursor"},
 		{"centred spans all placed at one X", "text.go", `line\.spans\[k\]\.X -= x / 2\.0`, "line.spans[k].X = -x / 2.0", "E11.span-shift"},
 		{"breakpoint width without the hyphen", "text/linebreak.go", `\t\t\twidth := lb\.W\n\t\t\tif lb\.items\[b\]\.Type == PenaltyType \{\n\t\t\t\twidth \+= lb\.items\[b\]\.Width\n\t\t\t\}\n`, "\t\t\twidth := lb.W\n", "E11.break-width"},
 		{"penalty width taken from the previous item", "text/linebreak.go", `\t\t\t\twidth \+= lb\.items\[b\]\.Width\n`, "\t\t\t\twidth += lb.items[b-1].Width\n", "E11.break-width"},
@@ -162,6 +171,7 @@ var Mutants = map[string][]Mutant{
 		{"vertical fonts written as horizontal", "renderers/pdf/writer.go", `w\.writeFonts\(w\.fontsV, true\)`, `w.writeFonts(w.fontsV, false)`, "E5.fontmaps"},
 	},
 	"C19": {
+		{"parsePoints fills a package-level scratch buffer", "svg.go", `func \(svg \*svgParser\) parsePoints\(v string\) \[\]float64 \{\n((?:.*\n){4})\tvals := \[\]float64\{\}\n`, "var scratchNumbers []float64\n\nfunc (svg *svgParser) parsePoints(v string) []float64 {\n$1\tvals := scratchNumbers[:0]\n", "E11.returned-scratch"},
 		{"miter limit written into the asserted copy only", "svg.go", `\t\t\tmiter\.Limit = svg\.state\.strokeMiterLimit\n\t\t\tsvg\.ctx\.SetStrokeJoiner\(miter\)\n`, "\t\t\tmiter.Limit = svg.state.strokeMiterLimit\n", "E11.copy-store"},
 		{"translate(tx) moves along both axes", "svg.go", `m = m\.Translate\(d\[0\], 0\.0\)`, "m = m.Translate(d[0], d[0])", "E11.svg-transform"},
 		{"matrix() transposed", "svg.go", `Matrix\{\{d\[0\], d\[2\], d\[4\]\}, \{d\[1\], d\[3\], d\[5\]\}\}`, "Matrix{{d[0], d[1], d[4]}, {d[2], d[3], d[5]}}", "E11.svg-transform"},
